@@ -13,7 +13,8 @@
 // |selected|; after the confirmed delete the measurement is before minus selected (multiset of
 // complete rows); deleted_count equals the number of rows that disappeared.
 //
-// thorough: all 64 989 expressions + 1=1. quick: all of depth <= 1 plus one representative of every
+// thorough: all expressions of depth <= 2 up to commutativity of AND/OR (11 889) + 1=1; with
+// VERIF_C10_ORDERED=1 all 64 989 ordered expressions (about 45 min of CPU-bound work on a busy box). quick: all of depth <= 1 plus one representative of every
 // semantically distinct depth-2 selection (see quickSubset). Cases are sharded over 16 worker
 // processes (re-exec of this binary; VERIF_C10_WORKERS overrides, VERIF_C10_DEBUG=1 prints timings).
 // Failures are minimised (sub-expression replacement, layout, then delta debugging on the rows) and
@@ -114,14 +115,18 @@ func (e *expr) refsB() bool {
 	return e.A.refsB() || e.B.refsB()
 }
 
-// enumerate returns every expression of depth <= 2 (ordered operands, repetitions included), simplest
-// first, then 1=1.
-func enumerate() []*expr {
+// enumerate returns the expressions of depth <= 2, simplest first, then 1=1.
+// ordered=true: every expression, AND/OR operands ordered, repetitions included (64 989).
+// ordered=false (the default bound): every expression of depth <= 1 with ordered operands, and every
+// depth-2 expression up to commutativity of AND/OR — operands are taken from the depth<=1 expressions
+// with one representative per commutative pair, and a op b is generated once per unordered pair
+// (a op a included). Commutative variants have identical per-row values, so no selection is lost.
+func enumerate(ordered bool) []*expr {
 	var e0 []*expr
 	for i := range atoms {
 		e0 = append(e0, &expr{Op: "atom", Atom: i})
 	}
-	grow := func(lower []*expr, all []*expr) []*expr {
+	grow := func(lower []*expr, all []*expr, unorderedPairs bool) []*expr {
 		// lower: expressions of depth <= d-2; all: expressions of depth <= d-1; returns depth == d
 		isLower := map[*expr]bool{}
 		for _, e := range lower {
@@ -134,9 +139,12 @@ func enumerate() []*expr {
 			}
 		}
 		for _, op := range []string{"and", "or"} {
-			for _, a := range all {
-				for _, b := range all {
+			for i, a := range all {
+				for j, b := range all {
 					if isLower[a] && isLower[b] {
+						continue
+					}
+					if unorderedPairs && j < i {
 						continue
 					}
 					out = append(out, &expr{Op: op, A: a, B: b})
@@ -145,9 +153,15 @@ func enumerate() []*expr {
 		}
 		return out
 	}
-	d1 := grow(nil, e0)
+	d1 := grow(nil, e0, false)
 	e1 := append(append([]*expr{}, e0...), d1...)
-	d2 := grow(e0, e1)
+	var d2 []*expr
+	if ordered {
+		d2 = grow(e0, e1, false)
+	} else {
+		c1 := append(append([]*expr{}, e0...), grow(nil, e0, true)...)
+		d2 = grow(e0, c1, true)
+	}
 	out := append(append([]*expr{}, e1...), d2...)
 	out = append(out, &expr{Op: "atom", Atom: fullTable})
 	return out
@@ -426,7 +440,7 @@ func must(err error, what string) {
 var scratch string   // removed on exit by the process that created it (the parent)
 var childRoot string // where this process puts its worker directory
 
-const quickBound = "every expression of depth<=1 (ordered operands, repetitions) and, of the depth-2 expressions enumerated simplest-first, the first representative of every per-row TRUE/FALSE/NULL vector not produced by an earlier expression (each semantically distinct selection of the depth-2 space is executed once; thorough executes all of them)"
+const quickBound = "every expression of depth<=1 (ordered operands, repetitions) and, of the depth-2 expressions enumerated simplest-first, the first representative of every per-row TRUE/FALSE/NULL vector not produced by an earlier expression (each semantically distinct selection of the depth-2 space is executed once; thorough executes every expression up to commutativity)"
 
 func cleanup() {
 	if scratch != "" {
@@ -869,7 +883,7 @@ type task struct {
 }
 
 func buildTasks(run *ev.Run, layouts []*layout) ([]*expr, []task) {
-	exprs := enumerate()
+	exprs := enumerate(!run.Quick() && os.Getenv("VERIF_C10_ORDERED") != "")
 	if run.Quick() {
 		exprs = quickSubset(exprs, layouts)
 	}
@@ -1236,7 +1250,10 @@ func main() {
 	for _, e := range exprs {
 		depthHist[fmt.Sprint("depth", e.depth())]++
 	}
-	bound := "every expression of depth<=2 with ordered operands and repetitions"
+	bound := "every expression of depth<=1 with ordered operands and repetitions, and every depth-2 expression up to commutativity of AND/OR (operands drawn from one representative per commutative depth-1 pair, each unordered operand pair once, a op a included)"
+	if os.Getenv("VERIF_C10_ORDERED") != "" {
+		bound = "every expression of depth<=2 with ordered operands and repetitions"
+	}
 	if run.Quick() {
 		bound = quickBound
 	}
@@ -1294,7 +1311,7 @@ func replay(run *ev.Run, w *worker, layouts []*layout) {
 		must(fmt.Errorf("layout %q", f.Replay.Layout), "replay")
 	}
 	var e *expr
-	for _, c := range enumerate() {
+	for _, c := range enumerate(true) {
 		if c.render() == f.Replay.Where {
 			e = c
 		}
